@@ -153,3 +153,107 @@ func c02CancelledPublishesNothing(c *core.Check) {
 		r.Unknown("html/layout.blockContainerLayout | context.brokenOutOfFlow", p.Pos(fn.Pos()), "no write into context.brokenOutOfFlow")
 	}
 }
+
+// c02SpanningResume (R10): a resume stack is keyed by the children of the box whose layout returned it.  In
+// columnsLayout the stack returned by the layout of a `column-span: all` block describes a position *inside that
+// block*: it may be stored under the block's index, but never unpacked and added to an index of the multi-column
+// box itself, which resumes the next page at an unrelated child.
+func c02SpanningResume(c *core.Check) {
+	p := c.Prog
+	r := c.Rule("R10", "columnsLayout: the resume point returned by blockLevelLayout for a spanning block never reaches ResumeStack.Unpack in columnsLayout (its keys index the block's children, not the multi-column box's): it is only stored under the block's own index", 1)
+	fn := p.Fn("html/layout", "columnsLayout")
+	if fn == nil {
+		r.Anchor("html/layout.columnsLayout")
+		return
+	}
+	// the resume points taken from blockLevelLayout results
+	var srcs []ssa.Value
+	core.Instrs(fn, func(in ssa.Instruction) {
+		call, ok := in.(*ssa.Call)
+		if !ok {
+			return
+		}
+		if callee := call.Call.StaticCallee(); callee == nil || callee.Name() != "blockLevelLayout" {
+			return
+		}
+		for _, ref := range *call.Referrers() {
+			ex, ok := ref.(*ssa.Extract)
+			if !ok {
+				continue
+			}
+			// the blockLayout struct: its resumeAt field
+			for _, r2 := range *ex.Referrers() {
+				switch x := r2.(type) {
+				case *ssa.Field:
+					if st, ok := x.X.Type().Underlying().(*types.Struct); ok && st.Field(x.Field).Name() == "resumeAt" {
+						srcs = append(srcs, x)
+					}
+				case *ssa.Store:
+					// spilled to a local: loads of its resumeAt field
+					if al, ok := x.Addr.(*ssa.Alloc); ok {
+						for _, r3 := range *al.Referrers() {
+							if fa, ok := r3.(*ssa.FieldAddr); ok && core.FieldName(fa) == "resumeAt" {
+								for _, r4 := range *fa.Referrers() {
+									if ld, ok := r4.(*ssa.UnOp); ok {
+										srcs = append(srcs, ld)
+									}
+								}
+							}
+						}
+					}
+				}
+			}
+		}
+	})
+	key := "html/layout.columnsLayout | resume point of a spanning block"
+	if len(srcs) == 0 {
+		r.Unknown(key, p.Pos(fn.Pos()), "the resumeAt of the blockLevelLayout result is not read")
+		return
+	}
+	isSrc := map[ssa.Value]bool{}
+	for _, s := range srcs {
+		isSrc[s] = true
+	}
+	bad := ""
+	core.Instrs(fn, func(in ssa.Instruction) {
+		call, ok := in.(*ssa.Call)
+		if !ok {
+			return
+		}
+		callee := call.Call.StaticCallee()
+		if callee == nil || callee.Name() != "Unpack" || len(call.Call.Args) == 0 {
+			return
+		}
+		// the receiver, through merges and the local it may live in
+		seen := map[ssa.Value]bool{}
+		var walk func(v ssa.Value, d int)
+		walk = func(v ssa.Value, d int) {
+			if v == nil || seen[v] || d > 8 || bad != "" {
+				return
+			}
+			seen[v] = true
+			if isSrc[v] {
+				bad = p.Pos(call.Pos())
+				return
+			}
+			switch x := v.(type) {
+			case *ssa.Phi:
+				for _, e := range x.Edges {
+					walk(e, d+1)
+				}
+			case *ssa.UnOp:
+				if al, ok := x.X.(*ssa.Alloc); ok {
+					for _, ref := range *al.Referrers() {
+						if st, ok := ref.(*ssa.Store); ok && st.Addr == ssa.Value(al) {
+							walk(st.Val, d+1)
+						}
+					}
+				}
+			case *ssa.ChangeType:
+				walk(x.X, d+1)
+			}
+		}
+		walk(call.Call.Args[0], 0)
+	})
+	r.Cond(bad == "", key, p.Pos(fn.Pos()), fmt.Sprintf("%d reads of it, none reaches Unpack", len(srcs)), "it reaches the Unpack at "+bad+": its first key, an index among the block's children, is added to the index of the block in the multi-column box — the next page resumes at an unrelated child (content lost, or slice bounds out of range)")
+}
